@@ -2709,6 +2709,14 @@ ABTU_ret_err int ABTI_thread_handle_request_migrate(ABTI_global *p_global,
     }
     /* Unset the migration request. */
     ABTI_thread_unset_request(p_thread, ABTI_THREAD_REQ_MIGRATE);
+    /* A request issued while this one was being handled has stored its target
+     * but may have lost its request bit to the line above.  If the target is
+     * no longer the pool we have just moved to, that request is still pending:
+     * set the bit again so that the next scheduling point handles it. */
+    if (ABTD_atomic_relaxed_load_ptr(&p_mig_data->p_migration_pool) !=
+        (void *)p_pool) {
+        ABTI_thread_set_request(p_thread, ABTI_THREAD_REQ_MIGRATE);
+    }
     return ABT_SUCCESS;
 }
 
